@@ -345,8 +345,16 @@ func (w *h1World) checkRelearn(o *h1Node, p *h1Packet, before map[string]NodeMet
 			continue
 		}
 		if p.senderLeft[id] {
-			w.run.Fail("C11.left-no-relearn", "relearn-live-from-aware-peer",
-				"n%d learnt left node %s as live from %s, which knew it had left when it sent the packet", o.idx, id, p.src)
+			sig, extra := "relearn-live-from-aware-peer", ""
+			if v := o.views[id]; v != nil && v.expiredOnce {
+				// F4 again: the observer had forgotten the node; a delta answering a
+				// digest it sent before that re-creates the node from the entries
+				// above the old version, and when the packet ends before the left
+				// marker the departed node is live until the next exchange
+				sig, extra = "relearn-live-from-aware-peer-after-expiry-relearn", " (the observer had expired it before; the packet re-created it)"
+			}
+			w.run.Fail("C11.left-no-relearn", sig,
+				"n%d learnt left node %s as live from %s, which knew it had left when it sent the packet%s", o.idx, id, p.src, extra)
 		} else {
 			w.run.Probe("c11.relearn_from_unaware_peer")
 		}
